@@ -941,6 +941,12 @@ func c09rel(c *core.Ctx, r *core.Reporter) {
 			r.Hold(ruleRel, key, c.Pos(s.in.Pos()), detail)
 			continue
 		}
+		if name, n, ok := docExamplesOf(c, s.root); ok {
+			// x is the Examples of the doc that pkg/net's methodDocFromFunc copies from the registration of a
+			// built-in named by a constant: its length is the length of that registration's literal
+			r.Decide(n >= s.need, ruleRel, key, c.Pos(s.in.Pos()), fmt.Sprintf("%s; the slice is a copy of the Examples of the registration of %q, a literal of %d entries", detail, name, n))
+			continue
+		}
 		if ex, ok := relExceptions[key]; ok {
 			if relNeedsOtherLenGuard[key] && !core.Separates(s.fn, s.in.Block(), an.NoReturn, otherLenPositive) {
 				r.Violate(ruleRel, key, c.Pos(s.in.Pos()), detail+": the accepted argument needs a test `0 < len(y)` of the companion sequence on every path to this site, and there is none")
@@ -988,6 +994,48 @@ func otherLenPositive(ifi *ssa.If, branch bool) bool {
 		return !branch && ((isLen(bo.X) && isZero(bo.Y)) || (isZero(bo.X) && isLen(bo.Y)))
 	}
 	return false
+}
+
+// docExamplesOf: root is the Examples field of the *FuncDoc returned by a static call of a helper listed in
+// docCopyHelpers whose function-name argument is a constant; returns that name and the number of examples in
+// the literal FuncDoc registered under it in the helper's package.
+func docExamplesOf(c *core.Ctx, root ssa.Value) (string, int, bool) {
+	u, ok := root.(*ssa.UnOp)
+	if !ok {
+		return "", 0, false
+	}
+	fa, ok := u.X.(*ssa.FieldAddr)
+	if !ok || fieldName(fa) != "Examples" || !core.IsNamed(fa.X.Type(), core.SlipPath, "FuncDoc") {
+		return "", 0, false
+	}
+	call, ok := fa.X.(*ssa.Call)
+	if !ok {
+		return "", 0, false
+	}
+	cal := call.Call.StaticCallee()
+	if cal == nil || cal.Pkg == nil {
+		return "", 0, false
+	}
+	argIdx, ok := docCopyHelpers[core.SSAName(cal)]
+	if !ok || argIdx >= len(call.Call.Args) {
+		return "", 0, false
+	}
+	cst, ok := call.Call.Args[argIdx].(*ssa.Const)
+	if !ok || cst.Value == nil || cst.Value.Kind() != constant.String {
+		return "", 0, false
+	}
+	name := constant.StringVal(cst.Value)
+	b := c.ByName(core.RelPkg(cal.Pkg.Pkg.Path()), name)
+	if b == nil || !b.DocLit || b.Examples < 0 {
+		return name, 0, true // unresolved registration or non-literal examples: nothing proven
+	}
+	return name, b.Examples, true
+}
+
+// docCopyHelpers: helper -> index of the argument naming the built-in whose FuncDoc.Examples the helper copies
+// into the FuncDoc it returns (read: `if 0 < len(fd.Examples) { md.Examples = make(len(fd.Examples)); copy }`).
+var docCopyHelpers = map[string]int{
+	"pkg/net.methodDocFromFunc": 1,
 }
 
 var relExceptions = map[string]string{
